@@ -408,7 +408,16 @@ def at_location_rule(idx, r):
     """Parameter.atLocation(loc) is EVALUATED for every location word 0..7 of the definition and every queried word 1..7: it is true exactly
     when the two overlap.  (A subset test would exclude compound locations such as TOP|CORNERS from the corner data that HexBlock.rotate
     turns.)  Shared with R11.2 / R13.9."""
-    from ..minieval import MiniEval
+    from ..minieval import MiniEval as _ME
+
+    class MiniEval(_ME):
+        """location words are enum.Flag values: `a in b` is containment, (a & b) == a"""
+        def _ev(self, e, env):
+            if isinstance(e, ast.Compare) and len(e.ops) == 1 and isinstance(e.ops[0], (ast.In, ast.NotIn)):
+                a, b = self._ev(e.left, env), self._ev(e.comparators[0], env)
+                if isinstance(a, int) and isinstance(b, int) and not isinstance(a, bool) and not isinstance(b, bool):
+                    return ((a & b) == a) == isinstance(e.ops[0], ast.In)
+            return super()._ev(e, env)
     at = idx.method("armi.reactor.parameters.parameterDefinitions.Parameter", "atLocation")
     q = at.params()[1]
     bad = []
